@@ -23,7 +23,6 @@ import (
 	"github.com/ethereum/go-ethereum/crypto"
 
 	"github.com/haqq-network/haqq/app"
-	haqqtypes "github.com/haqq-network/haqq/types"
 	coinomicstypes "github.com/haqq-network/haqq/x/coinomics/types"
 	epochstypes "github.com/haqq-network/haqq/x/epochs/types"
 	erc20types "github.com/haqq-network/haqq/x/erc20/types"
@@ -160,15 +159,15 @@ func genesisCoq(a1 *app.Haqq, ctx1 sdk.Context, gs1, gs2 map[string]json.RawMess
 			}
 		}
 	}
-	// EthAccounts of the auth module
-	type authEnt struct{ addr, hash string }
+	// every account of the auth module with its kind (by concrete Go type) and code hash
+	type authEnt struct{ addr, kind, hash string }
 	auth := []authEnt{}
+	coqKind := map[string]string{"eth": "KEth", "clawback": "KClawback", "module": "KModule", "base": "KBase"}
 	a1.AccountKeeper.IterateAccounts(ctx1, func(acc authtypes.AccountI) bool {
-		if ea, ok := acc.(haqqtypes.EthAccountI); ok {
-			ad := string(ea.EthAddress().Bytes())
-			auth = append(auth, authEnt{ad, ea.GetCodeHash().Hex()})
-			addrs.add(ad)
-		}
+		kind, ch := accKind(acc)
+		ad := string(acc.GetAddress().Bytes())
+		auth = append(auth, authEnt{ad, coqKind[kind], ch.Hex()})
+		addrs.add(ad)
 		return false
 	})
 	for _, d := range docs {
@@ -301,7 +300,7 @@ func genesisCoq(a1 *app.Haqq, ctx1 sdk.Context, gs1, gs2 map[string]json.RawMess
 	sort.Slice(auth, func(i, j int) bool { return bytes.Compare([]byte(auth[i].addr), []byte(auth[j].addr)) < 0 })
 	authS := []string{}
 	for _, e := range auth {
-		authS = append(authS, fmt.Sprintf("(%s, %s)", addrs.id(e.addr), coqN(hashes.id(e.hash))))
+		authS = append(authS, fmt.Sprintf("(%s, (%s, %s))", addrs.id(e.addr), e.kind, coqN(hashes.id(e.hash))))
 	}
 	hashS := []string{}
 	cids := []int{}
